@@ -45,8 +45,8 @@ Example C09_example :
   let re := fun (_ _ : N) => false in
   let broad := [mkM 0 MEq 1] in
   let narrow := [mkM 0 MEq 1; mkM 2 MEq 3; mkM 2 MNeq 4] in
-  let e := EBin "/" false OneToOne false [] [] (ECall "abs" [EVec (mkVS narrow 0 0 None None)]) (EVec (mkVS broad 0 0 None None)) in
+  let e := EBin "/" false OneToOne false [] [] (ECall "abs" [EVec (mkVS narrow 0 0 None None 1)]) (EVec (mkVS broad 0 0 None None 1)) in
   opt_merge e =
-  EBin "/" false OneToOne false [] [] (ECall "abs" [EVec (mkVS broad 0 0 None (Some [mkM 2 MEq 3; mkM 2 MNeq 4]))])
-       (EVec (mkVS broad 0 0 None None)).
+  EBin "/" false OneToOne false [] [] (ECall "abs" [EVec (mkVS broad 0 0 None (Some [mkM 2 MEq 3; mkM 2 MNeq 4]) 1)])
+       (EVec (mkVS broad 0 0 None None 1)).
 Proof. vm_compute. reflexivity. Qed.
